@@ -392,6 +392,18 @@ func runC06(c *Ctx) {
 	}
 }
 
+func init() {
+	// C06 also needs the commitment functions to bind every element (shared with C07)
+	p := Registry["C06"]
+	if p != nil {
+		inner := p.Run
+		p.Run = func(c *Ctx) {
+			inner(c)
+			commitmentLayoutRules(c, "C06/commitment")
+		}
+	}
+}
+
 // ---------------------------------------------------------------- C08
 
 func runC08(c *Ctx) {
